@@ -130,6 +130,7 @@ type Run struct {
 	violations []Violation
 	inconcl    []string
 	extra      map[string]any
+	known      []kfEntry
 }
 
 // NewRun starts a run.
@@ -402,7 +403,32 @@ func (r *Run) RunChildren(spec ChildSpec) {
 
 const maxViolationsBeforeAbort = 12
 
-func (r *Run) violationCount() int { r.mu.Lock(); defer r.mu.Unlock(); return len(r.violations) }
+// violationCount counts the violations that are not listed as known findings: known findings
+// must never stop the remaining cases from running (they would hide what those cases find).
+func (r *Run) violationCount() int {
+	r.mu.Lock()
+	defer r.mu.Unlock()
+	if r.known == nil {
+		r.known = loadKnown(r.Prop)
+		if r.known == nil {
+			r.known = []kfEntry{}
+		}
+	}
+	n := 0
+	for _, v := range r.violations {
+		listed := false
+		for _, k := range r.known {
+			if k.sig.MatchString(v.Sig) {
+				listed = true
+				break
+			}
+		}
+		if !listed {
+			n++
+		}
+	}
+	return n
+}
 
 func (r *Run) noteAbort() {
 	r.mu.Lock()
